@@ -47,6 +47,8 @@ def run(args):
     else:
         cases, metas = ctx.run_harness("c01", extra=[ctx.scratch], timeout=3400)
         ctx.evaluations = len(cases)
+        feat_cases = [c for c in cases if c[0].startswith("c01 feat ")]
+        cases = [c for c in cases if not c[0].startswith("c01 feat ")]
         pys = [python_says(c[0].split(" ")[-1]) for c in cases]
         n_over = sum(1 for x in pys if x == "overflow")
         keep = [i for i, x in enumerate(pys) if x != "overflow"]
@@ -81,11 +83,24 @@ def run(args):
                 continue
             failures.append({"request": req[:400], "real": real, "python": exp, "source": pyfile.replace(".py", ".incn"),
                              "why": "the compiled program prints / stops differently from the documented meaning of its source"})
+        # second stream: feature programs beyond the core fragment, CPython oracle only (no Lean model)
+        hist["feature_programs_agree"] = 0
+        for req, real in feat_cases:
+            name, pyfile = req.split(" ")[2], req.split(" ")[-1]
+            ctx.nontrivial.add(req)
+            exp = python_says(pyfile)
+            if exp is None or exp == "overflow":
+                failures.append({"request": req, "real": real, "why": "the Python rendering of the feature program did not run: oracle unavailable"})
+            elif real != exp:
+                failures.append({"request": req, "real": real, "python": exp, "source": pyfile.replace(".py", ".incn"),
+                                 "why": f"feature program `{name}`: the compiled program prints / stops differently from the documented meaning of its source"})
+            else:
+                hist["feature_programs_agree"] += 1
         for f in failures[:5]:
             ctx.violation("oracle", f)
         ctx.samples = [{"request": r[:240], "real": o[:120]} for r, o in cases[:2] + cases[-2:]]
         ctx.coverage_extra = {"histogram": hist, "harness_meta": metas, "oracle_failures": len(failures)}
     ctx.conclude_broken_obligations(failures)
     return ctx.finish(
-        rule="seeded random programs of the core fragment: a function f(a, b, flag, xs) with up to 3 levels of nested if / 0–3 elif / else, bounded while loops with break/continue, for over range and over lists, compound assignments with all five integer operators, prints of integer and boolean expressions built by a precedence-layered generator (so the source groups as written, without parentheses), calls of two printing helpers (evaluation order observable), list append / len / indexing with positive and negative indices; every program called with three argument tuples, compiled with rustc and run; 7 grouping probes; 3 hand-written regression programs first; distinct = distinct program",
+        rule="seeded random programs of the core fragment: a function f(a, b, flag, xs) with up to 3 levels of nested if / 0–3 elif / else, bounded while loops with break/continue, for over range and over lists, compound assignments with all five integer operators, prints of integer and boolean expressions built by a precedence-layered generator (so the source groups as written, without parentheses), calls of two printing helpers (evaluation order observable), list append / len / indexing with positive and negative indices; every program called with three argument tuples, compiled with rustc and run; 7 grouping probes; 3 hand-written regression programs first; plus 12 feature templates beyond the core fragment with seeded constants (Option/Result/`?`, enum match, model and class methods with mutation, f-strings incl. literal braces, string methods, dicts, recursion, comprehensions and slices, tuples, numeric promotion through comparisons, while/break/continue/early return) judged by CPython only; distinct = distinct program",
         extra_cov=getattr(ctx, "coverage_extra", None))
